@@ -109,7 +109,9 @@ def gen_reg_case(r, eng):
         if cands and len(alln) > 1:
             excl = r.choice(cands)
     cmd = r.choice([[b"true"], [b"echo", b"hi"], [b"echo", b"%h", b"%u"], [b"a  b", b"", b"c"], [b"x", b"%"], [b"sh", b"-c", b"echo $0; exit 3"]])
-    return {"part": "reg", "config": config, "groups": groups, "optl": optl, "optR": optR, "envR": envR, "excl": excl, "cmd": cmd}
+    # where -l / -R stand relative to the -w words must not matter: 0 = before, 1 = after, 2 = between the -w options
+    late = r.choice([0, 0, 1, 2])
+    return {"part": "reg", "config": config, "groups": groups, "optl": optl, "optR": optR, "envR": envR, "excl": excl, "cmd": cmd, "late": late}
 
 
 RAW_WORDS = [b"a::b@a1", b"reca:@a1", b"@a1", b":bob@a1", b"bob@a1:x", b"reca:bob@a1@x", b"reca:recb:a1", b"reca::a1", b"reca:a1",
@@ -168,13 +170,21 @@ def reg_expectation(eng, case):
 
 
 def reg_argv(case):
-    argv = []
+    opts = []
     if case["optl"] is not None:
-        argv += ["-l", case["optl"]]
+        opts += ["-l", case["optl"]]
     for t in case["optR"]:
-        argv += ["-R", t]
+        opts += ["-R", t]
+    ws = []
     for g in case["groups"]:
-        argv += ["-w", b",".join(word_text(w) for w in g)]
+        ws.append(["-w", b",".join(word_text(w) for w in g)])
+    late = case.get("late", 0)
+    if late == 0:
+        argv = opts + [x for w in ws for x in w]
+    elif late == 1:
+        argv = [x for w in ws for x in w] + opts
+    else:
+        argv = [x for w in ws[:1] for x in w] + opts + [x for w in ws[1:] for x in w]
     if case["excl"] is not None:
         argv += ["-x", case["excl"]]
     return argv + list(case["cmd"])
